@@ -261,11 +261,27 @@ func c22BuildTree(desc string) *c22Tree {
 		h, _ := common.Blake2bHash([]byte(fmt.Sprintf("c22-block-%d", i)))
 		return h
 	}
-	root := types.NewHeader(common.Hash{}, salt(0), common.Hash{}, 0, types.NewDigest())
+	// every block is a BABE secondary-slot block (lib/blocktree wants a pre-runtime digest in every header)
+	digest := func(i int) types.Digest {
+		d := types.NewDigest()
+		bd := types.NewBabeDigest()
+		if err := bd.SetValue(types.BabeSecondaryPlainPreDigest{AuthorityIndex: uint32(i), SlotNumber: uint64(i)}); err != nil {
+			panic(err)
+		}
+		enc, err := scale.Marshal(bd)
+		if err != nil {
+			panic(err)
+		}
+		if err := d.Add(types.PreRuntimeDigest{ConsensusEngineID: types.BabeEngineID, Data: enc}); err != nil {
+			panic(err)
+		}
+		return d
+	}
+	root := types.NewHeader(common.Hash{}, salt(0), common.Hash{}, 0, digest(0))
 	t.headers = append(t.headers, root)
 	for i, p := range parents {
 		ph := t.headers[p]
-		t.headers = append(t.headers, types.NewHeader(ph.Hash(), salt(i+1), common.Hash{}, ph.Number+1, types.NewDigest()))
+		t.headers = append(t.headers, types.NewHeader(ph.Hash(), salt(i+1), common.Hash{}, ph.Number+1, digest(i+1)))
 	}
 	t.bt = blocktree.NewBlockTreeFromRoot(root)
 	t0 := time.Unix(1_700_000_000, 0)
